@@ -92,7 +92,7 @@ WF(t) == /\ VisSet(t) \subseteq Scope(t)
          /\ DOMAIN t.ty = Scope(t) /\ DOMAIN t.fk = Scope(t)
          /\ Distinct(NamesOf(t))
          /\ Distinct(t.vis)
-         /\ {t.part[i] : i \in DOMAIN t.part} \subseteq VisSet(t)
+         /\ {t.part[i] : i \in DOMAIN t.part} \subseteq Scope(t)
          /\ Len(t.pcls) = Len(t.rows) /\ Len(t.scls) = Len(t.rows)
          /\ \A r \in DOMAIN t.rows : DOMAIN t.rows[r] = Scope(t)
          /\ \A r \in 1..(Len(t.rows) - 1) : t.pcls[r] <= t.pcls[r + 1] /\ t.scls[r] <= t.scls[r + 1]
